@@ -25,6 +25,7 @@ import (
 	"verif/sim/wl/methods"
 	"verif/sim/wl/mutexctr"
 	"verif/sim/wl/oncectr"
+	"verif/sim/wl/values"
 	"verif/sim/wl/perworker"
 	"verif/sim/wl/pipeline"
 	"verif/sim/wl/prodcons"
@@ -65,6 +66,7 @@ var templates = []Template{
 	{"funcs", funcs.Src, funcs.Run, []int{2, 2}},
 	{"shapes", shapes.Src, shapes.Run, []int{2, 3}},
 	{"oncectr", oncectr.Src, oncectr.Run, []int{2, 3}},
+	{"values", values.Src, values.Run, []int{2, 3}},
 }
 
 var (
